@@ -1,3 +1,4 @@
+#![allow(unexpected_cfgs)]
 // #![feature(str_split_whitespace_remainder)]
 
 mod autoplay;
@@ -7,6 +8,8 @@ mod constants;
 mod performance_test;
 mod search;
 mod uci;
+#[cfg(daniel729_chess_verif)]
+mod verif_hooks;
 
 use arrayvec::ArrayVec;
 use chess::move_struct::Move;
